@@ -8,6 +8,7 @@ fn main() {
     let code = match a.get(1).copied() {
         Some("replay") => match a.get(2).copied() {
             Some("script") => script::replay(a[3], a[4]),
+            Some("twin") => script::replay_twin(a[3], a[4]),
             Some("tables") => tables::replay(a[3], a[4]),
             other => {
                 eprintln!("unknown replay suite {other:?}");
